@@ -80,6 +80,16 @@ Theorem C12_quiescent_clean : forall M MAXC s, reachable M MAXC s ->
 Proof. exact quiescent_clean. Qed.
 Print Assumptions C12_quiescent_clean.
 
+(* (4b) The sweep is automatic: every step that completes a check in (release task) or a clean() leaves
+   ALL host pools swept - each remaining pool has a counted waiter or a connection, and every idle
+   connection it keeps is open.  (So the bookkeeping of a host that went idle, e.g. because the peer
+   closed its parked connection, is dropped by the next check in of ANY host.) *)
+Theorem C12_checkin_sweeps_all_hosts : forall M MAXC s r dr pk s', reachable M MAXC s ->
+  r_runnable s r = true -> step M MAXC s (LStep (TR r) dr pk) = Some s' ->
+  swept s' /\ rtasks s' r = R_done /\ hplock s' = free_lock.
+Proof. exact release_sweeps. Qed.
+Print Assumptions C12_checkin_sweeps_all_hosts.
+
 (* the same for executions without any cancellation (a corollary: [reachable_nc] is included in [reachable]) *)
 Theorem C12_quiescent_clean_no_cancel : forall M MAXC s, reachable_nc M MAXC s ->
   (forall c, clients s c = C_idle \/ clients s c = C_cancelled) ->
@@ -173,6 +183,16 @@ Proof.
   split.
   { intros r. destruct r as [|[|[|[|r]]]]; cbn; auto. }
   split; [reflexivity|]. split; [eexists; split; reflexivity|reflexivity].
+Qed.
+
+(* (4b): host 0 keeps an idle connection that the peer then closes; a check in on host 1 is pending. *)
+Example C12_nonvacuous_sweep :
+  exists s hp, reachable 1 100 s /\ r_runnable s 1 = true /\ aget (pools s) 0 = Some hp /\ ready hp = [0] /\ copen s 0 = false.
+Proof.
+  destruct (run 1 100 init [LStart 0 0 [] 0; LConnOK 0; LFinish 0 false; LStep (TR 0) [] 0; LClose 0;
+                            LStart 1 1 [0] 0; LFinish 1 false]) as [s|] eqn:E; [|vm_compute in E; discriminate].
+  exists s. pose proof (run_reach _ _ _ _ E) as R. vm_compute in E. injection E as <-.
+  eexists. split; [exact R|]. split; [reflexivity|]. split; [reflexivity|]. split; reflexivity.
 Qed.
 
 Example C12_nonvacuous_quiescent_no_cancel :
